@@ -704,6 +704,8 @@ class G:
             s["allow_choice_duplicates"] = self.pick(["yes", "no"])
         if P("_", pr * 0.2) and "public_key" not in s:
             s["omit_instanceID"] = self.pick(["yes", "true"])
+        if P("p_add_none_option", 0.0):
+            s["add_none_option"] = self.pick(["yes", "true"])      # legacy setting: a 'none' constraint on every select_multiple
         return s
 
     entities_enabled = False
